@@ -37,7 +37,6 @@ VARIABLES modeFile, day, tod,
           nRun, nSet, nEdit, nCollect, nAdv,
           init,        \* the initial observable state (never changes; lets a dumped state be replayed)
           last         \* the action that led here and its arguments
-obs == <<modeFile, day, tod, files, local, ready, uploaded, requests>>
 vars == <<modeFile, day, tod, files, local, ready, uploaded, requests, nRun, nSet, nEdit, nCollect, nAdv, init, last>>
 
 Init == /\ modeFile \in ModeFiles
@@ -114,8 +113,9 @@ TypeOK == /\ IsModeFile(modeFile)
 (* acknowledged is recorded as uploaded and is no longer waiting                *)
 OneRequestPerWeek == \A r1, r2 \in requests : r1.wk = r2.wk => r1 = r2
 RequestsRecorded == \A r \in requests : r.wk \in uploaded /\ r.wk \notin ready
-(* nothing is ever posted for a week without the recorded mode having been on   *)
-(* at that run (history variable free form: requests only grow in mode on)      *)
-NoRequestsUnlessEverOn == requests # {} => nRun > 0
+(* a consequence of the two gating relations: what a run makes uploadable it    *)
+(* may also send (opt-in date < begin < end = week <= today), so a run that the *)
+(* server acknowledges never leaves a new ready report behind                   *)
+NoNewReadyLeftBehind == [][ready' \subseteq ready]_vars
 View == <<modeFile, day, tod, files, local, ready, uploaded, requests, nRun, nSet, nEdit, nCollect, nAdv, init>>
 =============================================================================
